@@ -7,6 +7,21 @@ BASE = "cd /repo && /venv/bin/python -m pytest -ra -q -p no:cacheprovider --time
 
 # id -> (level category, technique, level text, level note, design ref)
 CHECKS = {
+ "C01": ("exploration", "reference-model row monitor over solve() tables (documented laws, tolerance algebra from the solver's stopping rule) + polarity-mirror differential twin",
+         "Every component row of every table returned for randomized well-formed trees (all 11 kinds, tables, both polarities, multi-source, PMux, phases) is judged against an independent implementation of the documented laws with structure taken from the spec; a mirrored-supply twin is solved through the real code and compared. Held on the executions observed.",
+         "Trusted: the reference laws in slmon/model.py (written from docstrings/property text); numpy allclose atol=1e-8 as the residual bound; general 2-D tables checked by corner-range interval.", "4/C01"),
+ "C02": ("exploration", "runtime conservation monitor (row energy identity, loss/efficiency ranges, thermal identities, per-phase system balance) on solve() tables",
+         "Arithmetic identities of the property are evaluated on every row and every phase of every returned table over randomized systems, ambients and thermal resistances; tolerances derived from the solver's stopping rule.",
+         "Trusted: tolerance algebra of DESIGN.md section 2; load temperature rise interpreted as rt*consumption (pinned by the repository's tests).", "4/C02"),
+ "C03": ("exploration", "solver probe (wrapped System._solve/_fwd_prop: captured iterate, sweep counter) + re-sweep convergence oracle + physicality monitor + reference steady-state solver for the progress clause",
+         "After each solve() the captured iterate is pushed through one more sweep of the code's own propagation and must satisfy the same allclose predicate; returned tables must be finite, physical and within the requested tolerance of the laws; exception types and sweep counts are asserted; benign systems (reference steady state with every node >= 80 % of its regulated origin) must be solved by default settings. Overload family enumerated over 7 series forms x 2 load kinds x 10 overload factors.",
+         "Trusted: reference steady-state solver (damped Gauss-Seidel on documented laws); sweep bound taken as the code's literal maxiter+1; progress asserted only inside the conservative benign region.", "4/C03"),
+ "C04": ("exploration", "dead-closure monitor: set of components that must be quiescent derived from the spec, compared with exact zeros / exact sleep current in the table",
+         "Dead elements are planted at random depths (0 V source, phase-inactive source/converter/regulator/switch/mux, LinReg below drop-out, mux without live input); the transitive closure below them is derived from the spec and every row in it must be exactly zero in every phase; sleeping elements must draw exactly iis.",
+         "Trusted: phase-behaviour model in slmon/model.py; exact comparison with 0.0.", "4/C04"),
+ "C06": ("exploration", "phase-aware reference-law monitor + differential twins through the real code (phase slice vs solve(phase=p); substitution twin without phases; unconfigured vs phase-less)",
+         "Per phase the rows are judged by the phase-aware reference laws; solve(phase=p) is compared cell by cell with the slice of solve(); a phase-free twin system with substituted load values / dead sources / sleep-current loads is solved at 1e-10 and compared; unknown phases must raise ValueError.",
+         "Trusted: substitution twin construction; twin comparison tolerance derived from numpy's fixed atol=1e-8 (TwinTol).", "4/C06"),
  "C20": ("exploration", "runtime post-condition wrapper (exact rational closed form) + metamorphic re-invocation monitor",
          "Every call of trace_res/plane_res made by a randomized workload (12 decades of geometry) is checked by a wrapper against the closed form in Fraction arithmetic and against proportionality/affinity/symmetry relations; held on the executions observed, not a proof.",
          "Trusted: CPython float/Fraction arithmetic; tolerance 1e-12 of the un-cancelled magnitude.", "4/C20"),
